@@ -140,6 +140,13 @@ def check(repo, rep):
     thr_fields = [f for f, ds in defs.items() if ds and all(d['value'] == ('p', 'energy_threshold') for d in ds)]
     sel_fields = [f for f, ds in defs.items() if ds and all(d['value'][0] == 'call' and d['value'][1] == ('g', 'util', 'make_channel_selector') for d in ds)]
     agg_fields = [f for f, ds in defs.items() if ds and all(d['value'][0] == 'ite' for d in ds)]
+    # or: the field handed to calculate_energy as aggregation, defined on two branches of the constructor
+    for l_ in vl:
+        for x_ in walk(l_.value) if l_.value else []:
+            if x_[0] == 'call' and x_[1][0] == 'g' and x_[1][2] == 'calculate_energy':
+                a1_ = x_[2][1] if len(x_[2]) > 1 else dict(x_[3]).get('agg_fn')
+                if a1_ is not None and a1_[0] == 'attr' and a1_[1] == ('self',) and a1_[2] in defs and a1_[2] not in agg_fields:
+                    agg_fields.append(a1_[2])
     isthr = P.Pat(lambda t: t[0] == 'attr' and t[1] == ('self',) and t[2] in thr_fields, 'threshold')
     nret = 0
     energy_call = None
@@ -193,6 +200,21 @@ def check(repo, rep):
     # ---------------------------------------------------------------- 3. aggregation = max over channels for None/'any'
     all_sets = []
     for f in agg_fields:
+        branch_defs = [d for d in defs[f] if d['value'][0] != 'ite']
+        if branch_defs:
+            # if/else form: np.max under (use_channel in (None, 'any')), None otherwise
+            for d in branch_defs:
+                cc = [c for c in d['conds'] if c[0][0] == 'cmp' and c[0][1] == 'in' and c[0][2] == ('p', 'use_channel')]
+                if not cc:
+                    rep.unknown('AudioEnergyValidator.__init__: aggregation %s assigned without a test of use_channel' % f)
+                    continue
+                keys = {x[1] for x in cc[0][0][3][1] if x[0] == 'c'}
+                all_sets.append(frozenset(keys))
+                v = d['value']
+                okv = (npname(v) in ('max', 'amax')) if cc[0][1] else (v == ('c', None))
+                rep.ob('default / "any" channel mode aggregates with the maximum over channels', keys == {None, 'any'} and okv, cx.where('util', d['node']), 'AudioEnergyValidator.__init__:aggregation',
+                       'aggregation is %s when use_channel in %s is %s' % (show(v)[:40], sorted(map(str, keys)), cc[0][1]), sample=dict(aggregation=show(v)[:60], branch=cc[0][1]))
+            continue
         for d in defs[f]:
             v = d['value']
             c, a, b = v[1], v[2], v[3]
